@@ -121,8 +121,27 @@ def d2(cx: Cx, ob: Ob) -> None:
             ok = any(g.b is True and op(g.a) == "cmp" and g.a[1] == "in" and g.a[2] == t and g.a[3] == ("gconst", U, "CONTENT_TYPE_TO_RDFLIB_FORMAT") for g in gs)
             if not ok:
                 ob.violate(hh.qualname, where(hh, line), "handle_header returns a media type without checking it against the supported result types", detail="unchecked")
-            if not any(x == mapped for x in subterms(t)) :
-                ob.violate(hh.qualname, where(hh, line), "handle_header does not map synonyms such as application/json to the SPARQL result types", detail="no-synonyms")
+            if not any(x == mapped for x in subterms(t)):
+                # the mapping may legitimately live in parse_header - but then types that collapse onto
+                # one canonical key must keep their HIGHEST q, which a plain keyed store does not do
+                phs = cx.summary(ph, ob.id)
+                in_parser = [ev for ev, _ in phs.walk() if any(x == ("gconst", U, "CONTENT_TYPE_SYNONYMS") for tt in (ev.a, ev.b) if isinstance(tt, tuple) for x in subterms(tt))]
+                in_parser += [1 for tt, _ in phs.returns() if any(x == ("gconst", U, "CONTENT_TYPE_SYNONYMS") for x in subterms(tt))]
+                if not in_parser:
+                    ob.violate(hh.qualname, where(hh, line), "handle_header does not map synonyms such as application/json to the SPARQL result types", detail="no-synonyms")
+                else:
+                    keyed = [ev for ev, _ in phs.walk() if ev.kind == "store" and op(ev.a) == "item" and any(x == ("gconst", U, "CONTENT_TYPE_SYNONYMS") for x in subterms(ev.a[2]))]
+                    maxed = any(callee_name(x) == "max" for ev in keyed for x in subterms(ev.b) if op(x) == "call")
+                    if keyed and not maxed:
+                        ob.violate(
+                            ph.qualname,
+                            where(ph, keyed[0].line),
+                            "parse_header stores q-values under the synonym-mapped media type: a type and its synonym collapse onto one key and the later one overwrites the other's q, so the highest-q supported type no longer wins",
+                            witness="'application/sparql-results+json;q=0.9, text/csv;q=0.5, application/json;q=0.1' negotiates CSV instead of JSON",
+                            detail="synonym-collision",
+                        )
+                    elif not keyed:
+                        ob.undecide("synonym mapping happens in parse_header in an unrecognised form")
         else:
             falsy = any(g.kind == "guard" and g.a == header and g.b is False for g in ctx.guards)
             if falsy:
@@ -417,3 +436,56 @@ def d6(cx: Cx, ob: Ob) -> None:
                     ob.violate(h.qualname, where(h, line), f"{fw}: the response declares `{show(declared)[:40] if declared else 'no type'}` while the body is serialised for `{show(ct)[:40]}`", detail=f"{fw}:declared-type")
         if not found:
             ob.undecide(f"{fw}: serialising handler not found")
+
+
+@obligation("C18-D7", "configured predicates: _prepare_predicates returns {owl:sameAs} only when no predicates are given, otherwise exactly the given ones; the graph stores that set and answers only for members of it", floor=3)
+def d7(cx: Cx, ob: Ob) -> None:
+    fn = cx.fn(f"{A}._prepare_predicates", ob.id)
+    s = cx.summary(fn, ob.id)
+    pr = ("param", fn.params[0].name)
+    SAME = ("attr", ("ext", "rdflib.OWL"), "sameAs")
+
+    def is_same(x):
+        return x == SAME or (op(x) == "attr" and x[2] == "sameAs") or (op(x) == "ext" and x[1].endswith(".sameAs"))
+
+    for t, ctx in s.returns():
+        line = ctx.path.out[2]
+        none_case = any(g.kind == "guard" and op(g.a) == "cmp" and g.a[2] == pr and is_const(g.a[3], None) and ((g.a[1] in ("is", "==")) == g.b) for g in ctx.guards)
+        not_none = any(g.kind == "guard" and op(g.a) == "cmp" and g.a[2] == pr and is_const(g.a[3], None) and ((g.a[1] in ("is", "==")) != g.b) for g in ctx.guards)
+        # elements of the returned set
+        elems = []
+        src = t
+        if op(src) == "new":
+            init = src[4]
+            elems += list(init[1]) if op(init) in ("set", "list") else []
+            for ev, ectx in s.mutations_of(src):
+                if ev.kind == "expr" and callee_name(ev.a) in ("add", "update"):
+                    # only count mutations on this path
+                    if ev in ctx.path.events:
+                        elems.append(("mut", ev.a))
+        elif op(src) == "set":
+            elems += list(src[1])
+        elif op(src) == "comp":
+            elems.append(src)
+        has_same = any(is_same(e) for e in elems if op(e) != "mut")
+        ob.site(f"{where(fn, line)} {fn.qualname}", f"{'predicates is None' if none_case else 'predicates given'}: {show(t)[:60]}")
+        if none_case and not has_same:
+            ob.violate(fn.qualname, where(fn, line), "without configured predicates the default owl:sameAs is not used", detail="no-default")
+        if not none_case and has_same:
+            ob.violate(
+                fn.qualname,
+                where(fn, line),
+                "owl:sameAs is added to explicitly configured predicates: a graph configured for other predicates answers owl:sameAs queries although it must return nothing for them",
+                witness="MappingServiceGraph(converter=c, predicates=['skos:exactMatch']) answers ?s owl:sameAs ?o",
+                detail="default-always-added",
+            )
+    g = cx.fn(f"{A}.MappingServiceGraph.__init__", ob.id)
+    gs = cx.summary(g, ob.id)
+    me = ("param", g.self_name)
+    stores = [ev for ev, _ in gs.distinct_events("store") if ev.a == ("attr", me, "query_predicates")]
+    if not stores:
+        ob.violate(g.qualname, g.where, "the graph does not store its configured predicates", detail="no-store")
+    for ev in stores:
+        ob.site(f"{where(g, ev.line)} {g.qualname}", show(ev.b)[:60])
+        if not (op(ev.b) == "call" and ev.b[1] == ("func", f"{A}._prepare_predicates") and ev.b[2] == (("param", "predicates"),)):
+            ob.violate(g.qualname, where(g, ev.line), f"query_predicates is `{show(ev.b)[:50]}`, not _prepare_predicates(predicates)", detail="store-value")
